@@ -495,6 +495,11 @@ def call_builtin(self, name, args, kwargs, st, node):
         zs = [self.as_int(x, st).z for x in a]
         lo, hi = (z3.IntVal(0), zs[0]) if len(zs) == 1 else (zs[0], zs[1])
         if len(zs) == 3:
+            stp = simp(zs[2])
+            if z3.is_int_value(stp) and stp.as_long() == -1:
+                n = z3.If(lo > hi, lo - hi, 0)
+                yield View(n, lambda i, lo=lo: int_val(lo - i), Int, distinct=True), st
+                return
             raise Untranslatable("range with step")
         n = z3.If(hi > lo, hi - lo, 0)
         yield View(n, lambda i, lo=lo: int_val(lo + i), Int, distinct=True), st
@@ -873,6 +878,27 @@ def call_method(self, recv, name, args, kwargs, st, node):
             if name == "update":
                 self.set_update(st, recv, self.view_of(self.iter_value(a[0], st), st))
                 yield none_val(), st
+                return
+            if name in ("union", "copy"):
+                new = self.alloc(st, t)
+                self.set_dom(st, new, self.dom(st, recv))
+                self.set_card(st, new, self.card(st, recv))
+                for other in a:
+                    if isinstance(other, tuple) and other and other[0] == "setlit":
+                        for it in other[1].items:
+                            self.add_key(st, new, it)
+                    elif isinstance(other, Val) and isinstance(other.t, Set):
+                        k = fresh("k", t.k.sort())
+                        d = fresh("dom", self.dom(st, new).sort())
+                        st.assume(z3.ForAll([k], z3.Select(d, k) == z3.Or(z3.Select(self.dom(st, new), k),
+                                                                         z3.Select(self.dom(st, other), k))))
+                        self.set_dom(st, new, d)
+                        c = fresh("card", z3.IntSort())
+                        st.assume(c >= self.card(st, new))
+                        self.set_card(st, new, c)
+                    else:
+                        self.set_update(st, new, self.view_of(self.iter_value(other, st), st))
+                yield new, st
                 return
             if name == "__contains__":
                 yield bool_val(self.contains(st, recv, a[0])), st
